@@ -22,6 +22,9 @@ RULE = (
     "and after each special, (thorough) every two-octet label. A case is distinct by (mode, label-class signature, "
     "length class, relativity, operation/outcome); trivial = empty/root name."
 )
+RULE += " " + (
+    "Also: names restored from pickled state; str labels measured by their UTF-8 form; the same relative text against origins differing only in case."
+)
 ASSUMPTIONS = [
     "reference codec vlib/ref/names.py (RFC 1035 §3.1/§4.1.4/§5.1) is correct",
     "a compression pointer may reuse an earlier case-variant spelling of the same suffix (RFC 1035 §4.1.4 + case-insensitive identity)",
